@@ -465,6 +465,26 @@ class _CaseTimeout(BaseException):
 
 
 _HANG_STACKS = []
+_THREAD_DEATHS = []
+
+
+def _excepthook(args):
+    """Passive: remember which helper thread died from which exception where (then default report)."""
+    try:
+        import traceback
+
+        tb = traceback.extract_tb(args.exc_traceback)
+        inner = tb[-1] if tb else None
+        xon = [f for f in tb if "/xonsh/" in f.filename]
+        at = xon[-1] if xon else inner
+        where = f"{os.path.basename(at.filename)}:{at.name}" if at else "?"
+        err = args.exc_type.__name__
+        if isinstance(args.exc_value, OSError) and args.exc_value.errno is not None:
+            err += f"[{errno.errorcode.get(args.exc_value.errno, args.exc_value.errno)}]"
+        _THREAD_DEATHS.append(f"{type(args.thread).__name__}:{err}@{where}")
+    except Exception:  # noqa: BLE001
+        pass
+    threading.__excepthook__(args)
 
 
 def _alarm(signum, frame):
@@ -530,6 +550,7 @@ def _child(case, resfd):
         snaps = [snapshot(XSH, work, base)]
         outcomes = []
         logs = []
+        threading.excepthook = _excepthook
         signal.signal(signal.SIGALRM, _alarm)
         signal.setitimer(signal.ITIMER_REAL, EXEC_ALARM)
         try:
@@ -559,6 +580,7 @@ def _child(case, resfd):
         finally:
             signal.setitimer(signal.ITIMER_REAL, 0)
         res["outcomes"] = outcomes
+        res["thread_deaths"] = sorted(set(_THREAD_DEATHS))
         res["log"] = logs[0] if logs else []
         res["logs_equal"] = all(sorted(map(tuple, lg)) == sorted(map(tuple, logs[0])) for lg in logs) if logs else True
         res["fired"] = inj.fired
